@@ -35,6 +35,12 @@ Theorem C10_phi_accepted : forall b : Z,
 Proof. exact phi_accepted_iff. Qed.
 Print Assumptions C10_phi_accepted.
 
+Theorem C10_copyto_shortcut_sound : forall (sh : list Z) (a : arr),
+  Forall (fun d => 0 <= d) sh -> a_shape a = sh -> Z.of_nat (length (a_data a)) = prodZ sh ->
+  match align_shape sh (a_shape a) with Some s' => bcast sh s' (a_data a) | None => None end = broadcast sh a.
+Proof. exact broadcast_shortcut_sound. Qed.
+Print Assumptions C10_copyto_shortcut_sound.
+
 Theorem C10_dispatch : forall (base_ok : Z -> Z -> Z -> bool) (s : sketch) (shm : bool),
   is_cms (class_of s) = true ->
   module_load base_ok shm (save s) = load base_ok (class_of s) shm (save s).
